@@ -30,6 +30,7 @@ func init() {
 			{"C17-R6", "generation stores only into configuration objects it created", c17r6},
 			{"C17-R7", "EDS locality groups are emitted in sorted order", c17r7},
 			{"C17-R8", "endpoint lists are never built in map iteration order", c17r8},
+			{"C17-R9", "no last-one-wins assignment under a map range", c17r9},
 		},
 	})
 }
@@ -1846,5 +1847,226 @@ func c17r8(c *Ctx) {
 	}
 	c.Check("map ranges in the endpoint-list packages examined (positive control)", token.NoPos, nLoops >= 30, fmt.Sprintf("%d ranges over maps examined", nLoops))
 	c.Infof("map ranges examined: %d, endpoint appends under them: %d", nLoops, nAppends)
+	c.Floor(1)
+}
+
+// C17-R9: no "last one wins" under a map range. Inside a range over a map, a variable that outlives the loop is not
+// assigned a value taken from the current key / element unless at most one pass can assign it. What a later pass
+// overwrites is decided by map iteration order; when two keys qualify (":authority" and "Host" in one header map) the
+// value that ends up in the generated resource differs from generation to generation. Decided in the armed generation
+// packages (the ones of R1): for every loop-carried variable of a range over a map (a phi in the loop header that is used
+// after the loop) an incoming value from inside the loop that derives from the iteration's key or element is reported,
+// except commutative accumulation (x = x OP f(elem) for +,|,&,^,* on numbers / bools) and min/max selection
+// (assignment under a comparison of the same variable with the candidate).
+var c17r9Exceptions = map[string]string{}
+
+func c17r9(c *Ctx) {
+	p := c.P
+	entries := []*ssa.Function{
+		p.Func(pkgCore, "ConfigGeneratorImpl", "BuildClusters"), p.Func(pkgCore, "ConfigGeneratorImpl", "BuildDeltaClusters"),
+		p.Func(pkgCore, "ConfigGeneratorImpl", "BuildListeners"), p.Func(pkgCore, "ConfigGeneratorImpl", "BuildHTTPRoutes"),
+		p.Func(pkgCore, "ConfigGeneratorImpl", "BuildNameTable"), p.Func(pkgXds, "EdsGenerator", "buildEndpoints"),
+		p.Func(pkgXds, "DiscoveryServer", "pushXds"), p.Func(pkgXds, "DiscoveryServer", "pushDeltaXds"),
+	}
+	reach := p.CG().Reach(entries, nil)
+	armed := map[string]bool{}
+	for _, pk := range []string{pkgEndpoints, pkgRoute, pkgXds, pkgCore, "pilot/pkg/networking/grpcgen", "pilot/pkg/networking/plugin/authn", "pilot/pkg/security/authz/builder", "pkg/dns/server", "pilot/pkg/networking/util", "pilot/pkg/networking/core/envoyfilter", "pilot/pkg/networking/core/extension", "pilot/pkg/networking/core/loadbalancer", "pilot/pkg/security/authn", "pilot/pkg/security/authz/model"} {
+		armed[istioMod+"/"+pk] = true
+	}
+	var fns []*ssa.Function
+	for fn := range reach {
+		fns = append(fns, fn)
+	}
+	sort.Slice(fns, func(i, j int) bool { return stableFnName(fns[i]) < stableFnName(fns[j]) })
+	nLoops := 0
+	for _, fn := range fns {
+		if !armed[funcPkgPath(fn)] || strings.HasSuffix(p.Fset.Position(fn.Pos()).Filename, "_test.go") || len(fn.Blocks) == 0 {
+			continue
+		}
+		for _, l := range rangeLoops(fn) {
+			if l.Over == nil || l.Body == nil || l.Body.Comment != "rangeiter.body" || l.Header == nil {
+				continue
+			}
+			if _, isMap := l.Over.Type().Underlying().(*types.Map); !isMap {
+				continue
+			}
+			nLoops++
+			// the iteration's key and element
+			iter := map[ssa.Value]bool{}
+			for _, hi := range l.Header.Instrs {
+				if nx, ok := hi.(*ssa.Next); ok {
+					for _, r := range *nx.Referrers() {
+						if ex, ok := r.(*ssa.Extract); ok && ex.Index >= 1 {
+							iter[ex] = true
+						}
+					}
+				}
+			}
+			inLoop := func(b *ssa.BasicBlock) bool { return l.Body.Dominates(b) || b == l.Header }
+			derives := func(v ssa.Value) bool {
+				seen := map[ssa.Value]bool{}
+				var walk func(v ssa.Value, d int) bool
+				walk = func(v ssa.Value, d int) bool {
+					if v == nil || seen[v] || d > 8 {
+						return false
+					}
+					seen[v] = true
+					if iter[v] {
+						return true
+					}
+					switch x := v.(type) {
+					case *ssa.UnOp:
+						return walk(x.X, d+1)
+					case *ssa.FieldAddr:
+						return walk(x.X, d+1)
+					case *ssa.Field:
+						return walk(x.X, d+1)
+					case *ssa.Convert:
+						return walk(x.X, d+1)
+					case *ssa.ChangeType:
+						return walk(x.X, d+1)
+					case *ssa.MakeInterface:
+						return walk(x.X, d+1)
+					case *ssa.Phi:
+						if !inLoop(x.Block()) || x.Block() == l.Header {
+							return false
+						}
+						for _, e := range x.Edges {
+							if walk(e, d+1) {
+								return true
+							}
+						}
+					case *ssa.Call:
+						for _, a := range x.Call.Args {
+							if walk(a, d+1) {
+								return true
+							}
+						}
+					}
+					return false
+				}
+				return walk(v, 0)
+			}
+			if os.Getenv("VERIF_C17R9_FIRSTWINS") != "" { // development: census of "first match in map order" returns
+				for _, b := range fn.Blocks {
+					if !l.Body.Dominates(b) {
+						continue
+					}
+					if r, ok := b.Instrs[len(b.Instrs)-1].(*ssa.Return); ok {
+						for _, rv := range r.Results {
+							if derives(rv) {
+								fmt.Fprintf(os.Stderr, "FIRSTWINS %s @%s\n", stableFnName(fn), p.Fset.Position(r.Pos()))
+							}
+						}
+					}
+				}
+			}
+			for _, hi := range l.Header.Instrs {
+				phi, ok := hi.(*ssa.Phi)
+				if !ok {
+					continue
+				}
+				// used after the loop?
+				after := false
+				for _, r := range *phi.Referrers() {
+					if !inLoop(r.Block()) {
+						after = true
+					}
+				}
+				if !after {
+					continue
+				}
+				for k, e := range phi.Edges {
+					pred := l.Header.Preds[k]
+					if !inLoop(pred) {
+						continue
+					}
+					// the value that comes around the back edge: follow phis inside the body to their leaves
+					var leaves []ssa.Value
+					seenL := map[ssa.Value]bool{}
+					var lv func(v ssa.Value)
+					lv = func(v ssa.Value) {
+						if seenL[v] {
+							return
+						}
+						seenL[v] = true
+						if ph, ok := v.(*ssa.Phi); ok && inLoop(ph.Block()) && ph.Block() != l.Header {
+							for _, x := range ph.Edges {
+								lv(x)
+							}
+							return
+						}
+						leaves = append(leaves, v)
+					}
+					lv(e)
+					for _, leaf := range leaves {
+						if leaf == ssa.Value(phi) {
+							continue // unchanged in this pass
+						}
+						if _, isConst := leaf.(*ssa.Const); isConst {
+							continue // a flag: order-insensitive
+						}
+						if bo, ok := leaf.(*ssa.BinOp); ok {
+							comm := bo.Op == token.ADD || bo.Op == token.OR || bo.Op == token.AND || bo.Op == token.XOR || bo.Op == token.MUL || bo.Op == token.LOR || bo.Op == token.LAND
+							isStr := false
+							if bt, ok := bo.Type().Underlying().(*types.Basic); ok && bt.Info()&types.IsString != 0 {
+								isStr = true
+							}
+							if comm && !isStr && (bo.X == ssa.Value(phi) || bo.Y == ssa.Value(phi)) {
+								continue // commutative accumulation
+							}
+						}
+						if ac, ok := leaf.(*ssa.Call); ok && isAppendCall(ac) {
+							continue // list accumulation: the order taint of R1 decides it
+						}
+						if !derives(leaf) {
+							continue
+						}
+						// min / max selection: the assigning block lies under a comparison that involves the variable itself
+						ins, isIns := leaf.(ssa.Instruction)
+						sel := false
+						for _, i := range allIfs(fn) {
+							if !inLoop(i.Block()) {
+								continue
+							}
+							v, _ := stripNot(i.Cond)
+							bo, ok := v.(*ssa.BinOp)
+							if !ok {
+								if call, isCall := v.(*ssa.Call); isCall {
+									for _, a := range call.Call.Args {
+										if a == ssa.Value(phi) {
+											sel = true
+										}
+									}
+								}
+								continue
+							}
+							if bo.X == ssa.Value(phi) || bo.Y == ssa.Value(phi) {
+								switch bo.Op {
+								case token.LSS, token.GTR, token.LEQ, token.GEQ:
+									sel = true
+								}
+							}
+						}
+						if sel {
+							continue
+						}
+						pos := phi.Pos()
+						if isIns && ins.Pos().IsValid() {
+							pos = ins.Pos()
+						}
+						key := stableFnName(fn) + "|" + phi.Comment
+						if why, ok := c17r9Exceptions[key]; ok {
+							c.Infof("exception %s: %s", key, why)
+							continue
+						}
+						c.Check("no last-one-wins under a map range: "+key, pos, false,
+							"inside a range over a map the variable `"+phi.Comment+"` is assigned a value taken from the current key / element, and it is used after the loop: when more than one key qualifies, which value survives is decided by map iteration order, so the generated resource differs from generation to generation and between istiod instances for the same configuration")
+					}
+				}
+			}
+		}
+	}
+	c.Check("map ranges in the armed generation packages examined (positive control)", token.NoPos, nLoops >= 40, fmt.Sprintf("%d ranges over maps examined", nLoops))
 	c.Floor(1)
 }
